@@ -78,6 +78,15 @@ func (r *Reconciler) Reconcile(ctx context.Context, request reconcile.Request) (
 		return r.updateExtendedDaemonsetSetting(ctx, instance, newStatus)
 	}
 
+	// an unusable node selector is an error of this setting whatever the cluster looks like (the conflict search below only
+	// evaluates selectors against nodes, so it cannot report it when there is no node)
+	if _, err = metav1.LabelSelectorAsSelector(&instance.Spec.NodeSelector); err != nil {
+		newStatus.Status = datadoghqv1alpha1.ExtendedDaemonsetSettingStatusError
+		newStatus.Error = fmt.Sprintf("invalid node selector, err:%v", err)
+
+		return r.updateExtendedDaemonsetSetting(ctx, instance, newStatus)
+	}
+
 	edsNodesList := &datadoghqv1alpha1.ExtendedDaemonsetSettingList{}
 	if err = r.client.List(ctx, edsNodesList, &client.ListOptions{Namespace: instance.Namespace}); err != nil {
 		return r.updateExtendedDaemonsetSetting(ctx, instance, newStatus)
